@@ -474,4 +474,45 @@ def expectedGeometry (g : Geometry) (encs : List AttEnc) : Geometry :=
   { isMesh := g.isMesh, numPoints := g.numPoints, faces := if g.isMesh then g.faces else [],
     atts := List.zipWith (expectedAttribute g.numPoints) g.atts encs }
 
+/-- the attribute the decoder returns, computed from the input and the options alone (no choices, no
+    stream): identity for attributes coded by the generic and integer encoders,
+    `dequantize (quantize x)` with the parameters of `quantizationParams` for quantized attributes,
+    `octahedral decode (octahedral encode x)` for normals — by the same (float oracle) expressions
+    as the encoder and the decoder use -/
+def expectedAttributeOf (opts : EncOpts) (numPoints i : Nat) (a : Attribute) : Attribute :=
+  let o := opts.att i
+  let rows := pointRows a numPoints
+  let values : Bytes :=
+    match encoderType a o with
+    | 0 => rows.flatten
+    | 1 => rows.flatten
+    | 2 =>
+      (match quantizationParams a o with
+       | some (mins, range, q) =>
+         (dequantAll range q mins (quantizedPortable mins range q a.numComponents rows) mins []).flatten
+       | none => [])
+    | _ =>
+      (match Octa.init o.quantBits.toNat with
+       | some t => (octaAll o.quantBits.toNat (octaPortable t rows) []).flatten
+       | none => [])
+  (descOf a).toAttribute numPoints values
+
+/-- `expected g opts`: what decoding the encoded `g` must return — same points in the same order,
+    same faces in the same order, every attribute with identity point map and
+    `expectedAttributeOf` values -/
+def expected (g : Geometry) (opts : EncOpts) : Geometry :=
+  { isMesh := g.isMesh, numPoints := g.numPoints, faces := if g.isMesh then g.faces else [],
+    atts := (zipIdxFrom 0 g.atts).map fun ia => expectedAttributeOf opts g.numPoints ia.1 ia.2 }
+
+/-- float oracle hypothesis for one normal: the first rounded coordinate computed by
+    `FloatVectorToQuantizedOctahedralCoords` has magnitude at most `center_value_` (holds for every
+    input as far as tested — the driver op `seqenc` evaluates it on every case; it cannot be proved
+    in Lean, where the float operations are opaque) -/
+def octaRowOK (t : OctaT) (row : Bytes) : Bool :=
+  match rowF32s 3 row with
+  | [x, y, z] =>
+    decide (iabs (Octa.floatVecRound t (Float32.ofBits x.toUInt32, Float32.ofBits y.toUInt32,
+      Float32.ofBits z.toUInt32)).1 ≤ t.center)
+  | _ => true
+
 end Draco.SeqEnc
